@@ -183,6 +183,15 @@ func (r *ref) onInterest(in *inst, o *iOp, nonce uint32, life time.Duration, tok
 		}
 	}
 	stats["interest arrivals"]++
+	if !in.sim.FaceRegistered(o.face) {
+		// the face was destroyed before this (queued) packet is processed: nothing is pending on
+		// a face that does not exist, nothing can be answered to it
+		stats["interest arrivals from a destroyed face"]++
+		if len(sends) > 0 {
+			v = append(v, viol("C01.only", "a packet from a face that no longer exists caused a transmission", fmt.Sprintf("Interest %s attributed to destroyed face %d: %s", o.name, o.face, sendsStr(sends))))
+		}
+		return
+	}
 	if scopeOf(o.face) == defn.NonLocal && isLocalhostStr(o.name) {
 		stats["interest arrivals rejected by scope"]++
 		// C09: never accepted from a non-local face -> no pending Interest, nothing to answer.
@@ -315,6 +324,14 @@ func (r *ref) onData(in *inst, face uint64, name string, tok []byte, wire []byte
 		}
 	}
 	stats["data arrivals"]++
+	if !in.sim.FaceRegistered(face) {
+		// Data from an unknown face is delivered to nobody (and consumes nothing)
+		stats["data arrivals from a destroyed face"]++
+		if len(ds) > 0 {
+			v = append(v, viol("C01.only", "a packet from a face that no longer exists caused a transmission", fmt.Sprintf("Data %s attributed to destroyed face %d: %s", name, face, sendsStr(ds))))
+		}
+		return
+	}
 	if scopeOf(face) == defn.NonLocal && isLocalhostStr(name) {
 		stats["data arrivals rejected by scope"]++
 		// C09: not accepted. Nothing arrives as far as C01 is concerned.
@@ -341,6 +358,8 @@ func (r *ref) onData(in *inst, face uint64, name string, tok []byte, wire []byte
 			switch {
 			case !sure:
 				c.must, c.why = false, "token not attached to the currently pending Interest"
+			case !in.sim.FaceRegistered(f):
+				c.must, c.why = false, "face no longer exists"
 			case f == face:
 				c.must, c.why = false, "arrival face"
 			case !now.Before(rc.expiry):
